@@ -217,6 +217,18 @@ func (s *ORSet) Delta() ReplicatedData {
 			}
 		}
 	}
+	// A clock entry {node: n} tells the peer "every dot of node up to n that is
+	// not listed here has been removed". The delta must therefore list every
+	// live dot its clock covers, not only the newly added ones: otherwise an
+	// element added earlier by the same node (and already shipped in a previous
+	// delta) is dropped by the peer as if it had been removed.
+	for elem, dots := range s.entries {
+		for _, dt := range dots {
+			if c, ok := d.clock[dt.nodeID]; ok && dt.counter <= c && !containsDot(d.entries[elem], dt) {
+				d.entries[elem] = append(d.entries[elem], dt)
+			}
+		}
+	}
 	return d
 }
 
